@@ -61,6 +61,11 @@ func families() []Scenario {
 		add("close-waits-for-forwarder", sub(0, "stalled"), Step{Op: "park", H: 0}, bgo(1, 0, 2), settle(3), quiesce,
 			closeS(1), Step{Op: "waitret", N: 25}, Step{Op: "rblock", H: 0, N: 60}, Step{Op: "unpark", H: 0}, settle(3), quiesce)
 	}
+	// Subscribe with a context that is already cancelled
+	pre := func(h int, kinds ...string) Step { st := subN(h, kinds...); st.Pre = true; return st }
+	add("precancelled", pre(0, "prompt"), sub(1, "prompt"), bgo(1, 0, 6), quiesce, drain, closeS(1), quiesce)
+	add("precancelled-stalled", pre(0, "stalled", "stalled"), sub(2, "prompt"), bgo(1, 0, 14), quiesce, drain, closeS(1), quiesce)
+	add("precancelled-only", pre(0, "slow"), bgo(1, 0, 13), quiesce, closeS(1), quiesce)
 	add("after-close", sub(0, "prompt"), bgo(1, 0, 2), quiesce, drain, closeS(1), quiesce, bgo(2, 0, 2), sub(1, "prompt"), quiesce, closeS(1), quiesce)
 	add("no-subscribers", bgo(1, 0, 3), quiesce, closeS(2), quiesce)
 	add("close-during-traffic", sub(0, "prompt"), sub(1, "slow"), sub(2, "stalled"), bgo(1, 0, 8), bgo(2, 0, 8), settle(2), closeS(1), quiesce)
@@ -89,11 +94,17 @@ func randomScenario(r *lib.Rand, big bool) Scenario {
 			for c := 0; c < n; c++ {
 				ks = append(ks, kinds[r.Intn(len(kinds))])
 			}
+			step := subN(nsub, ks...)
 			if n == 1 {
-				st = append(st, sub(nsub, ks[0]))
-			} else {
-				st = append(st, subN(nsub, ks...))
+				step = sub(nsub, ks[0])
 			}
+			if r.Intn(12) == 0 {
+				step.Pre = true
+				for c := range ks {
+					ks[c] = "cancelled" // not a prompt reader for the generator's bookkeeping
+				}
+			}
+			st = append(st, step)
 			for c := 0; c < n; c++ {
 				prompt[nsub] = ks[c] == "prompt"
 				nsub++
